@@ -308,8 +308,10 @@ def auto_discharge(f, site):
 # tables
 # ------------------------------------------------------------------------------------
 def norm_fn(path):
-    """closure numbering shifts when an unrelated closure is added earlier in the parent: key closures by their parent"""
-    return re.sub(r"\{closure#\d+\}", "{closure}", path)
+    """A closure body is keyed by the function it is written in: closure numbering shifts when an unrelated closure is added,
+    and rewriting `iter.for_each(|x| ..)` as `for x in iter { .. }` moves the very same sites from the closure into the parent.
+    Rows of a function and of its closures with the same signature are merged, their multiplicities add up."""
+    return re.sub(r"(::\{closure(#\d+)?\})+", "", path)
 
 
 def load_tables():
@@ -323,6 +325,8 @@ def load_tables():
         k = (norm_fn(r["fn"]), r["sig"])
         if k in rows:
             # rows of sibling closures with the same signature are merged (counts add up)
+            if (rows[k]["verdict"] == "finding") != (r["verdict"] == "finding"):
+                raise SystemExit("tables/panic_sites.json: finding and reviewed rows collide on %s %s" % k)
             rows[k] = dict(rows[k], count=rows[k]["count"] + r["count"], reason=rows[k]["reason"] + " | " + r["reason"])
         else:
             rows[k] = r
@@ -383,7 +387,7 @@ def check_contracts(chk, rule, contracts):
         for g, b, t in prog.callers_of(f.path):
             chk.saw_calls()
             how = row.get(norm_fn(g.path))
-            key = "contract/%s<-%s" % (f.path.split("sfs_core::")[-1], g.path.split("sfs_core::")[-1])
+            key = "contract/%s<-%s" % (f.path.split("sfs_core::")[-1], norm_fn(g.path).split("sfs_core::")[-1])
             if how is None:
                 chk.ob(rule, key + "/UNREVIEWED-CALLER", False, g.loc(b), "%s calls %s but is not in its closed caller set %s" % (g.path, f.path, sorted(row)))
                 continue
@@ -436,27 +440,11 @@ def precision_bound(chk, rule):
     pp = chk.fn("sfs::parse_precision")
     if pp is None:
         return
-    # Ok(..) is only constructed under precision <= 65535
-    oks = [b for b, i, p, rv, s in pp.assigns() if p[0] == 0 and rv["k"] == "aggregate" and rv.get("variant") == "Ok"]
-    good = False
-    for sb, st in pp.switches():
-        s = an.switch_subject(pp, sb)
-        if s["kind"] == "value" and s["root"] is not None:
-            d = pp.single_def(s["root"])
-            if d and d[0] == "assign" and d[3]["k"] == "binop" and d[3]["op"] in ("Le", "Lt"):
-                rl = op_local(d[3]["r"])
-                rd = pp.single_def(pp.copy_root(rl)) if rl is not None else None
-                bound = None
-                if rd and rd[0] == "call":
-                    c = an.const_of(pp, rd[2]["args"][0])
-                    bound = c.get("val") if c else None
-                else:
-                    c = an.const_of(pp, d[3]["r"])
-                    bound = c.get("val") if c else None
-                lim = 65535 if d[3]["op"] == "Le" else 65536
-                if isinstance(bound, int) and bound <= lim and oks and all(an.dominated_by_edge(pp, sb, st["otherwise"], b) for b in oks):
-                    good = True
-    chk.ob(rule, "parse_precision/Ok-only-below-65536", good, pp.loc(), "parse_precision returns Ok(p) only when p <= u16::MAX")
+    # Ok(p) is only constructed where p <= 65535 is implied by a dominating comparison of that same p
+    oks = [(b, rv) for b, i, p, rv, s in pp.assigns() if p[0] == 0 and rv["k"] == "aggregate" and rv.get("variant") == "Ok"]
+    bounds = [an.implied_upper_bound(pp, b, rv["ops"][0]) for b, rv in oks]
+    good = bool(oks) and all(x is not None and x <= 65535 for x in bounds)
+    chk.ob(rule, "parse_precision/Ok-only-below-65536", good, pp.loc(), "parse_precision returns Ok(p) only when p <= u16::MAX (implied upper bounds of the returned values: %s)" % bounds)
     users = set()
     for f in prog.fn_list:
         for b, t in f.calls():
@@ -632,18 +620,40 @@ def c19a(chk, rows):
         chk.ob("C19.a", "get_axis/index-strictly-below-axis-length", ok, f.loc(), "the view is constructed only where `index < shape[axis]` is implied (dominating comparisons on the position argument: %s)" % (rel or "none"))
     g = chk.fn(ARR + "shape::strides::Strides::flat_index")
     if g is not None:
-        fu = an.calls(g, ARR + "shape::strides::Strides::flat_index_unchecked")
+        FU = ARR + "shape::strides::Strides::flat_index_unchecked"
         al = [(b, t) for b, t in g.calls() if callee_is(t["callee"], "core::iter::traits::iterator::Iterator::all")]
         ok = False
+        why = ""
+        # every call of the unchecked variant in flat_index or its closures
+        fu = [(g, b, t) for b, t in an.calls(g, FU)] + [(c, b, t) for c in prog.closures_of(g.path) for b, t in an.calls(c, FU)]
         if len(fu) == 1 and len(al) == 1:
-            for sb, s in an.switches_on_call_result(g, al[0][0]):
-                ok = an.dominated_by_edge(g, sb, g.term(sb)["otherwise"], fu[0][0])
+            h, fb, ft = fu[0]
+            if h is g:
+                # `if all(..) { Some(unchecked) }`
+                for sb, s in an.switches_on_call_result(g, al[0][0]):
+                    ok = ok or an.dominated_by_edge(g, sb, g.term(sb)["otherwise"], fb)
+                why = "direct call on the true edge of the all(..) result"
+            else:
+                # `all(..).then(|| unchecked)`: the closure runs only when the receiver is true, and the receiver is the all(..) result
+                for tb, tt in g.calls():
+                    if not callee_is(tt["callee"], "core::bool::<impl bool>::then"):
+                        continue
+                    if len(tt["args"]) < 2 or an.closure_of_operand(g, tt["args"][1]) != h.path:
+                        continue
+                    rl = op_local(tt["args"][0])
+                    ad = an.call_dest_local(al[0][1])
+                    if rl is not None and ad is not None and g.copy_root(rl) == ad and g.dominates(al[0][0], tb):
+                        ok = True
+                why = "inside the closure of bool::then whose receiver is the all(..) result"
         cl_ok = False
-        for c in prog.closures_of(g.path):
-            for b, t in c.calls():
-                if callee_is(t["callee"], "core::cmp::PartialOrd::lt"):
-                    cl_ok = True
-        chk.ob("C19.a", "flat_index/unchecked-under-all(idx<shape)", ok and cl_ok, g.loc(), "flat_index_unchecked only on the edge where every index is strictly below its axis length")
+        if len(al) == 1:
+            cp = an.closure_of_operand(g, al[0][1]["args"][1]) if len(al[0][1]["args"]) > 1 else None
+            for c in prog.closures_of(g.path):
+                if cp is not None and c.path == cp:
+                    lt = [1 for b, t in c.calls() if callee_is(t["callee"], "core::cmp::PartialOrd::lt")]
+                    sw = list(c.switches())
+                    cl_ok = bool(lt) and not sw
+        chk.ob("C19.a", "flat_index/unchecked-under-all(idx<shape)", ok and cl_ok, g.loc(), "flat_index_unchecked only where every index is strictly below its axis length (%s; predicate closure is a single `<`: %s)" % (why or "no recognised guard", cl_ok))
 
 
 def none_sources_and_writes(prog, f, depth=0, seen=None):
